@@ -31,7 +31,10 @@ class Gen:
         self.r = rng
         self.pool = pool or {"tagged": [], "resources": []}
         (self.C, self.P, self.H, self.IR, self.LM, self.TB, self.ID, self.CM) = mods()
-        self.big = sorted(getattr(k, "value", k) for k in self.TB.TaggedBlock._BIG_KEYS)
+        # a renamed / removed _BIG_KEYS is a change of the source (reported by the extractor), not an infrastructure error:
+        # the generator then falls back to the specification's list so that such keys are still exercised
+        self.big = sorted(getattr(k, "value", k) for k in getattr(self.TB.TaggedBlock, "_BIG_KEYS", ())) or sorted(
+            [b"LMsk", b"Lr16", b"Lr32", b"Layr", b"Mt16", b"Mt32", b"Mtrn", b"Alph", b"FMsk", b"lnk2", b"FEid", b"FXid", b"PxSD"])
         self.tags = {m.value for m in self.C.Tag}
 
     # ---- scalars ----------------------------------------------------------------------
